@@ -208,6 +208,46 @@ func (p c10) wrappedSliceCycle(c *core.Ctx) {
 	c.Nontrivial("wrappedslice|" + g.Sc.GraphSig() + fmt.Sprint(plan))
 }
 
+// orderedTie: two eager components that declare the same Order() on a by-name cycle, one of them wrapped after its
+// initialisation: through which member the cycle is entered decides whether the start is refused - and that is the
+// same under every registration and enumeration order.
+func (p c10) orderedTie(c *core.Ctx) {
+	g := world.NewG(c.Rng)
+	a := g.AddNode(17, "a-first")
+	b := g.AddNode(17, "b-second")
+	ord := []int{0, 10, -3}[c.Rng.Intn(3)]
+	g.Sc.Nodes[a].Ord, g.Sc.Nodes[b].Ord = ord, ord
+	g.EdgeByName(a, b, "", "iface")
+	g.EdgeByName(b, a, "", "iface")
+	for x, nx := 0, c.Rng.Intn(3); x < nx; x++ {
+		k := g.AddNode(17, fmt.Sprintf("m-other-%d", x))
+		g.Sc.Nodes[k].Ord = ord
+	}
+	plan := map[string]world.SubPlan{[]string{"a-first", "b-second"}[c.Rng.Intn(2)]: {After: true}}
+	var sigs []string
+	for o := 0; o < 10; o++ {
+		g.ShuffleOrders()
+		if o%2 == 0 {
+			g.Sc.Order.DefMode, g.Sc.Order.PermK = "perm", o/2
+		}
+		r := world.Start(g.Sc, world.Options{Extra: []any{world.NewSubstituter(plan)}})
+		c.Count("starts", 1)
+		if abnormal(r.Outcome()) {
+			c.Fail("", "cycle of two equally ordered components, one wrapped: "+core.Short(r.OutcomeDetail(), 300), failDetail(g.Sc, r, map[string]any{"plan": plan}))
+			return
+		}
+		sigs = append(sigs, r.Outcome())
+	}
+	for i := 1; i < len(sigs); i++ {
+		if sigs[i] != sigs[0] {
+			c.Fail("", fmt.Sprintf("same scenario, different orders: a cycle of two components with the same Order(), one wrapped after initialisation: run 0 -> %s, run %d -> %s", sigs[0], i, sigs[i]), failDetail(g.Sc, nil, map[string]any{"outcomes": sigs, "plan": plan}))
+			return
+		}
+	}
+	c.Count("family_ordered_tie", 1)
+	c.Nontrivial("orderedtie|" + g.Sc.GraphSig() + fmt.Sprint(plan))
+}
+
 // tiedUnnamed: a single-valued point whose best-ranked candidates are several un-named components (a genuine
 // tie) next to named ones and no Primary: whatever the order, it receives one of the tied ones - never a
 // lower-ranked named candidate.
@@ -272,6 +312,10 @@ func (p c10) Run(c *core.Ctx) {
 	}
 	if c.Index%25 == 2 {
 		p.wrappedSliceCycle(c)
+		return
+	}
+	if c.Index%25 == 19 {
+		p.orderedTie(c)
 		return
 	}
 	orders := tierN(c.Tier, 12, 24)
